@@ -158,7 +158,7 @@ func runOne(t *testing.T, sc *scen.Scenario, seed uint64, caseIdx int, tape *sim
 				msg := fmt.Sprint(p)
 				if strings.Contains(msg, "deadlock: main bubble goroutine has exited") {
 					// Goroutines left blocked at the end of the bubble.
-					if run != nil {
+					if run != nil && !run.Failed() {
 						run.Violate("leak", "goroutines still blocked when the run ended (bubble deadlock): %s", leakSummary())
 					}
 				} else {
